@@ -1272,7 +1272,13 @@ func (r *Resolver) getTrigger(id uint64) (*trigger, bool) {
 
 // markTriggerInitialized marks a trigger as initialized and reports it.
 func (r *Resolver) markTriggerInitialized(triggerID uint64) {
-	trig, ok := r.getTrigger(triggerID)
+	// Under r.mu, like every path that detaches a trigger: those read initialized and report
+	// TriggerCountDec while holding the lock, so lookup, flag and TriggerCountInc must not be
+	// interleaved with a detach (the count would be incremented for a removed trigger and never
+	// decremented).
+	r.mu.Lock()
+	defer r.mu.Unlock()
+	trig, ok := r.triggers[triggerID]
 	if !ok {
 		return
 	}
